@@ -15,10 +15,24 @@ NOTE_SEM = ("Trusted base: TLC's evaluation of specs/Sem.tla (reference semantic
             "constants; parameter values are generic finite valuations, not all reals.")
 
 
+GAUSS_REL = {"C03": "marginal", "C04": "product", "C07": "conjugate"}
+
+
+def _sem_run(pid, tier, seed, rule, assumptions):
+    hook = None
+    if pid in GAUSS_REL:
+        from . import gauss_props  # pylint: disable=import-outside-toplevel
+        hook = gauss_props.hook(pid, tier, seed, GAUSS_REL[pid])
+        assumptions = assumptions + [
+            "Gaussian input layers: the relation is the specification's, its evaluation is numeric "
+            "(float64, scipy quadrature, rtol 1e-6 / 1e-7): DESIGN.md section 4.3"]
+    return sem_props.run(pid, tier, seed, rule, assumptions, post_hook=hook)
+
+
 def _sem(pid, rule, text, technique, extra_assumptions=()):
     PROPS[pid] = {
-        "run": lambda tier, seed: sem_props.run(pid, tier, seed, rule,
-                                                COMMON_ASSUMPTIONS + list(extra_assumptions)),
+        "run": lambda tier, seed: _sem_run(pid, tier, seed, rule,
+                                           COMMON_ASSUMPTIONS + list(extra_assumptions)),
         "replay": lambda path: sem_props.replay_file(path, pid),
     }
     META[pid] = {"text": text, "note": NOTE_SEM, "technique": technique,
